@@ -237,6 +237,10 @@ func fileWriteAux(L *LState, file *lFile, idx int) int {
 	top := L.GetTop()
 	out := file.writer
 	var err error
+	// the descriptor is ahead of the Lua-visible position by the read-ahead:
+	// reposition before writing, not after (error ignored as before: the
+	// file may not be seekable)
+	file.AbandonReadBuffer()
 	for i := idx; i <= top; i++ {
 		L.CheckTypes(i, LTNumber, LTString)
 		s := LVAsString(L.Get(i))
@@ -245,12 +249,10 @@ func fileWriteAux(L *LState, file *lFile, idx int) int {
 		}
 	}
 
-	file.AbandonReadBuffer()
 	L.Push(LTrue)
 	return 1
 errreturn:
 
-	file.AbandonReadBuffer()
 	L.Push(LNil)
 	L.Push(LString(err.Error()))
 	L.Push(LNumber(1)) // C-Lua compatibility: Original Lua pushes errno to the stack
